@@ -44,5 +44,6 @@ Inductive prim :=
 | PForwardCurrentKeyableEmptyKey            (* ctx.CurrentEntry.Rule.OnKeyableObject(ctx, objType, "") *)
 | PForwardParent (m : meth)                 (* ctx.ParentRule().<m>(same arguments) *)
 | PMarkObject (s : dtsrc)
+| PMarkContainer                            (* ctx.MarkContainer(containerType): markerID := CurrentEntry.MarkerID; MarkObject *)
 | PArrayRuleChunk | PStringRuleChunk | PStringBuilderRuleChunk
 | PArrayChunkRuleData | PStringChunkRuleData | PStringBuilderChunkRuleData.
